@@ -39,6 +39,27 @@ def var_case(draw):
                 batch_size=draw(st.sampled_from([None, None, None, 2, 3, "full"])))
 
 
+def two_point_estimator(sv, w):
+    """estimator whose capture matrix is exactly A with sources that span two domain points each: filters repeat A[:, k] at the
+    points 2k+1 and 2k+2 of a unit-step domain, source k is 1/2 at both (zero-padded ends)"""
+    import dreye
+
+    filt = np.zeros((sv.m, 2 * sv.n + 2))
+    filt[:, 1:-1:2] = sv.A
+    filt[:, 2:-1:2] = sv.A
+    src = np.zeros((sv.n, 2 * sv.n + 2))
+    src[np.arange(sv.n), 2 * np.arange(sv.n) + 1] = 0.5
+    src[np.arange(sv.n), 2 * np.arange(sv.n) + 2] = 0.5
+    kw = {}
+    if sv.K_raw is not None:
+        kw["K"] = sv.K_raw if np.ndim(sv.K_raw) == 0 else np.asarray(sv.K_raw, dtype=float)
+    if sv.base_raw is not None:
+        kw["baseline"] = sv.base_raw if np.ndim(sv.base_raw) == 0 else np.asarray(sv.base_raw, dtype=float)
+    if w is not None:
+        kw["w"] = w
+    return dreye.ReceptorEstimator(filt, domain=1.0, **kw), src
+
+
 def propagated(eps_abs, K):
     E = np.asarray(eps_abs, dtype=float)
     if K is None:
@@ -120,11 +141,14 @@ def body_var(case):
         est_unc = sig
         eps_abs = np.asarray(case["eps"], dtype=float)
     elif ek == "unc3d":
+        # filter samples; every source spans TWO domain points (weights 1/2 each), whose sample values differ (the second point
+        # takes the samples in reverse order): the capture variance includes their covariance along the domain
         S = np.asarray(case["samples"], dtype=float)
-        pad = np.zeros((S.shape[0], sv.m, sv.n + 2))
-        pad[:, :, 1:-1] = S
+        pad = np.zeros((S.shape[0], sv.m, 2 * sv.n + 2))
+        pad[:, :, 1:-1:2] = S
+        pad[:, :, 2:-1:2] = S[::-1]
         est_unc = pad
-        eps_abs = np.var(S, axis=0)          # variance over filter samples of the capture (one-hot sources: capture = filter value)
+        eps_abs = np.var(0.5 * S + 0.5 * S[::-1], axis=0)
     elif ek == "explicit":
         eps_abs = np.asarray(case["eps"], dtype=float)
     else:
@@ -133,11 +157,14 @@ def body_var(case):
     with calling(f"minimize_variance(Epsilon={ek})"):
         if ek in ("unc2d", "unc3d", "none"):
             import dreye
-            est = sv.make_estimator(w=w_arg, with_system=False)
+            if ek == "unc3d":
+                est, src = two_point_estimator(sv, w_arg)
+            else:
+                est = sv.make_estimator(w=w_arg, with_system=False)
+                src = np.zeros((sv.n, sv.n + 2))
+                src[np.arange(sv.n), np.arange(sv.n) + 1] = 1.0
             if est_unc is not None:
                 est.register_uncertainty(est_unc)
-            src = np.zeros((sv.n, sv.n + 2))
-            src[np.arange(sv.n), np.arange(sv.n) + 1] = 1.0
             est.register_system(src, lb=sv.lb_arg(), ub=sv.ub_arg())
             with unchanged("var", estimator=est):
                 X, Bp, Bv = est.minimize_variance(B, l2_eps=l2_eps, L1=L1, l1_eps=l1_eps, **opt)
@@ -175,7 +202,8 @@ def body_var(case):
     check(np.all(np.abs(Bp - model) <= 1e-9 * mag + 1e-300), "var:prediction", "B_pred is not the model's capture of X")
     # (c) reported variance = variance model applied to the returned intensities
     exp_var = X ** 2 @ Ep.T
-    check(np.all(np.abs(Bv - exp_var) <= 1e-9 * (np.abs(exp_var) + 1e-300) * 10), "var:reported-variance",
+    # (a variance of identical samples comes out as 1e-33 rather than 0 in another order of summation: absolute floor)
+    check(np.all(np.abs(Bv - exp_var) <= 1e-9 * (np.abs(exp_var) + 1e-300) * 10 + 1e-20 * (1.0 + float(np.max(X ** 2)))), "var:reported-variance",
           f"reported capture variance {Bv.tolist()} != variance model applied to X {exp_var.tolist()} (Epsilon={ek}, K={'none' if sv.K_raw is None else np.ndim(sv.K_raw)})",
           observed=dict(got=Bv.tolist(), expected=exp_var.tolist()))
     col = Ep.sum(axis=0)
